@@ -163,7 +163,8 @@ func Run(c *vl.Ctx) {
 			c.Sample(map[string]string{"id": live[i].ID, "program": fl.Render(live[i].P), "expected": live[i].Want.String()})
 		}
 	}
-	c.Count("programs_compiled", r.Programs)
+	r.Report()
+	r.Close()
 	c.Assume = append(c.Assume, "the definitional interpreter src/fl/interp.go is the reference semantics (wrapping two's complement, truncating / and %, left-to-right, by-value structs/arrays, write-through references)",
 		"cases whose packed observation agrees with the reference are not re-run alone; every reported disagreement was observed on a single-case program")
 	c.Finish(vl.Coverage{Evaluations: int64(len(live)), Exhaustive: true,
